@@ -56,8 +56,11 @@ type Obs struct {
 	Lookup map[string]LookupObs `json:"lookup,omitempty"`
 	// LoggerSet: instance id -> its logger-tagged field was set by the container.
 	// SleptS: seconds of simulated time the scheduler let pass while tasks were parked (Close phase).
-	SleptS    int             `json:"sleptS,omitempty"`
-	LoggerSet map[string]bool `json:"loggerSet,omitempty"`
+	// Fallbacks: point key -> id of the application's own fallback object that sat in a satisfiable
+	// single-valued point before Run (the container replaces it when it populates the holder).
+	Fallbacks map[string]string `json:"fallbacks,omitempty"`
+	SleptS    int               `json:"sleptS,omitempty"`
+	LoggerSet map[string]bool   `json:"loggerSet,omitempty"`
 	// LoggerPref: per instance with two logger fields, the prefix of the logger in `Log` (tag
 	// value empty) and in `Log2` (explicit prefix).
 	LoggerPref map[string][2]string `json:"loggerPref,omitempty"`
